@@ -16,6 +16,7 @@ fn main() {
         std::process::exit(2);
     }
     util::install_panic_hook();
+    util::install_logger();
     if let Err(e) = refs::crypto::self_test() {
         println!("MACHINERY-ERROR {}", e);
         std::process::exit(2);
